@@ -1,9 +1,10 @@
 /-
   TextDoc: grouping of Text elements into text blocks and writing the classifier's verdict back
   (`Document.CreateTextDocument`, `TextBlock.MergeNext`, `TextDocument.ApplyToModel`).
-  The 14 heuristic filters are an atom: a verdict is a list of blocks, each a list of indices of
-  Text elements (filters only ever merge *adjacent* blocks or drop whole blocks, keeping element
-  order; the harness checks this on every page) with a content flag and a title label.
+  Here the verdict of the filters is a parameter: a list of blocks, each a list of indices of
+  Text elements with a content flag and a title label (every theorem about this file is for all
+  verdicts).  The filters themselves are modelled in `Model/Filters.lean`; they merge blocks (not
+  always adjacent ones) or drop whole blocks — `FltProps.initial_block_all_or_nothing`.
 -/
 import Distill.Model.Builder
 namespace Distill
